@@ -37,6 +37,7 @@ import (
 	"reflect"
 	"sort"
 	"strings"
+	"sync"
 	"time"
 	"unicode/utf8"
 
@@ -45,6 +46,8 @@ import (
 	"github.com/oauth2-proxy/oauth2-proxy/v7/pkg/logger"
 	"github.com/spf13/pflag"
 )
+
+var cfgEnvMu sync.Mutex
 
 type cfgSetting struct {
 	flag   string
@@ -488,7 +491,47 @@ func (e *testEnv) viaConfigPath(o *options.Options) *options.Options {
 		b, _ := os.ReadFile(alphaFile)
 		input["alpha_config_file"] = string(b)
 	}
+	// a few of the command-line settings travel as environment variables instead (OAUTH2_PROXY_<TOML KEY>): the way
+	// container deployments configure the proxy.  The environment is process-wide: one loader at a time.
+	cfgEnvMu.Lock()
+	var envSet []string
+	if configFile == "" || len(args) > 0 {
+		kept := full[:0:0]
+		for _, a := range full {
+			moved := false
+			if strings.HasPrefix(a, "--") && !strings.HasPrefix(a, "--config=") && !strings.HasPrefix(a, "--alpha-config=") {
+				name, val, _ := strings.Cut(a[2:], "=")
+				// only settings that occur once on the command line (a list given several times cannot be split here)
+				n := 0
+				for _, b := range full {
+					if strings.HasPrefix(b, "--"+name+"=") {
+						n++
+					}
+				}
+				if n == 1 && !strings.ContainsAny(val, ", \t\"") && hash64(fmt.Sprintf("env|%d|%s|%s", e.c.seed, e.c.name, name))%4 == 0 {
+					key := "OAUTH2_PROXY_" + strings.ToUpper(tomlKey(name))
+					os.Setenv(key, val)
+					envSet = append(envSet, key+"="+val)
+					moved = true
+				}
+			}
+			if !moved {
+				kept = append(kept, a)
+			}
+		}
+		full = kept
+		input["args"] = full
+		if len(envSet) > 0 {
+			input["environment"] = envSet
+			e.c.count("cfgpath:env-vars")
+		}
+	}
 	ob, err := loadConfiguration(configFile, alphaFile, extra, full)
+	for _, kv := range envSet {
+		k, _, _ := strings.Cut(kv, "=")
+		os.Unsetenv(k)
+	}
+	cfgEnvMu.Unlock()
 	if err != nil {
 		e.tie(form, "the loader rejects a configuration that expresses valid options: "+err.Error(), []string{"*"}, input)
 		e.c.count("cfgpath:load-error")
